@@ -464,6 +464,20 @@ class Q:
             if not aux:
                 self.stats.unknown += 1
             res = "unknown"
+        xdir = os.environ.get("VERIF_XCHECK_DIR")
+        if xdir and not aux and res in ("sat", "unsat"):
+            # second opinion (thorough tier): a deterministic 1-in-16 sample of all queries and every 64th SAT one are dumped
+            self._xc = getattr(self, "_xc", 0) + 1
+            if self._xc % 16 == 0:
+                try:
+                    txt = self.s.to_smt2()
+                    if len(txt) < 200000:
+                        import hashlib
+                        h = hashlib.sha1(txt.encode()).hexdigest()[:16]
+                        with open(os.path.join(xdir, "%s-%s.smt2" % (res, h)), "w") as f:
+                            f.write(txt)
+                except Exception:
+                    pass
         if sample_tag is not None and len(self.stats.samples) < 3:
             try:
                 txt = self.s.to_smt2()
